@@ -31,7 +31,8 @@ RULE = ("E3/E1 per entry point (BF3 reader, BEC2 reader x decryptor sets {none, 
         "(entry point, type, raising function); 30 s watchdog; snapshot of module-level state of bec2format.* and the plug-in equal before and "
         "after every chunk. Distinct = distinct (entry point, input); non-trivial = the input differs from the valid artefact."
         " ('tags', id, value form, length, framing): reference-built valid files whose directory carries every tag id with ten value forms; the BF2 name alphabet is the hand-written list plus every identifier-like string literal of the importer's module (from its AST), in three positions."
-        " ('long', entry, i): long probes (long words, runs of one character class, repeated grammar fragments x tails that make a pattern back off) under the watchdog; decryptor sets also None and a one-shot iterator.")
+        " ('long', entry, i): long probes (long words, runs of one character class, repeated grammar fragments x tails that make a pattern back off) under the watchdog; decryptor sets also None and a one-shot iterator."
+        " Added: ('many', framing, n, op) files with 255, 256, 257, 300 components (built by the reference serialiser): intact with and without MAC check, last entry MAC / last payload damaged, truncated.")
 ASSUMPTIONS = [
     "allowed exception types: subclasses of bec2format.error.FormatError and of ValueError (includes UnicodeDecodeError, binascii.Error)",
     "the hang watchdog is 30 s per input (normal parses take < 10 ms)",
@@ -178,6 +179,11 @@ def cases(ctx):
                             if heavy and c in ("bit1", "bit2", "bit4", "bit5", "bit6"):
                                 continue
                             yield ("byte", kind, fi, ds, pos, c)
+    # files with very many components (directory index beyond one byte): intact and damaged in the last entry / last payload
+    for kind in ("bf3", "bec2"):
+        for n in (255, 256, 257, 300):
+            for op in ("intact", "nomac", "last-entry-mac", "last-payload", "truncated"):
+                yield ("many", kind, n, op)
     for ep in ("bf3", "bec2", "bf2", "cfgid"):
         yield ("short", ep, "")
         for a in SHORT_ALPHA[ep]:
@@ -297,6 +303,14 @@ def guarded(o, entry, fn, *args):
     return o
 
 
+def many_ckey(ctx):
+    return ctx.sym("c14-many-ckey")
+
+
+def wrap_cust(ctx, key):
+    return (1, AB.container_wrap(many_ckey(ctx), bytes(10) + key))
+
+
 def bec2_text(blocks, body_key, comps):
     hdr = AB.header(blocks)
     return L.render_text([], hdr + L.serialise(comps, len(hdr), body_key))
@@ -306,6 +320,37 @@ def run_case(ctx, case):
     fam = case[0]
     art = artefacts(ctx)
     o = Outcome("?", True)
+    if fam == "many":
+        _, kind, n, op = case
+        key = ctx.sym("c14-many-key")
+        comps = [{"tags": [(0xC1, bytes([i & 0xFF]))], "content": bytes([i & 0xFF, (i >> 8) + 1]), "declared": 2, "enc": False} for i in range(n)]
+        hdr = b"BF3\0\0" if kind == "bf3" else AB.header([wrap_cust(ctx, key)])
+        binary = bytearray(hdr + L.serialise(comps, len(hdr), key))
+        if op == "last-entry-mac":
+            dsize = int.from_bytes(binary[len(hdr):len(hdr) + 4], "big")
+            binary[len(hdr) + 4 + dsize - 2] ^= 0x10        # last byte of the last entry's MAC (the sentinel follows)
+        elif op == "last-payload":
+            binary[-1] ^= 0x01
+        elif op == "truncated":
+            del binary[-1:]
+        text = L.render_text([], bytes(binary))
+        mac = op != "nomac"
+        if kind == "bf3":
+            fn = lambda: Bf3File.read_file(io.StringIO(text), mac, key)       # noqa: E731
+        else:
+            fn = lambda: Bec2File.read_file(io.StringIO(text), [SoftwareCustKeyEncryptor(many_ckey(ctx))], mac)    # noqa: E731
+        box = {}
+        guarded(o, "many-" + kind, lambda: box.setdefault("r", fn()))
+        if op in ("intact", "nomac"):
+            if o.cls != "returned":
+                o.viol("many|valid-file-refused", "a valid %s file with %d components is not read (%s)" % (kind, n, o.cls))
+            else:
+                r = box["r"].bf3file if kind == "bec2" else box["r"]
+                if [bytes(c.blob) for c in r.components] != [c["content"] for c in comps]:
+                    o.viol("many|content", "a valid %s file with %d components reads back with other contents" % (kind, n))
+        elif o.cls == "returned":
+            o.viol("many|damage-accepted", "%s file with %d components, %s: accepted" % (kind, n, op))
+        return o
     if fam in ("text", "line", "prefix", "byte"):
         kind, fi, ds = case[1], case[2], case[3]
         a = art[kind][fi]
